@@ -167,10 +167,20 @@ class HProcessor(PartProcessor):
     are overridden; shutdown/restore behaviour is the library default.'''
 
     def __init__(self, *a, wo=None, **kw):
+        self.slow_factor = None      # spec 'slow': parts of quality < 0.5 take slow_factor times the configured cycle time
         super().__init__(*a, **kw)
         self.wo_table = wo or {}
         self.cost_calls = {}
         self.hub = None
+
+    @PartProcessor.cycle_time.getter
+    def cycle_time(self):
+        '''The documented way to make the cycle time depend on the state of the device (the library's own Buffer
+        overrides the getter the same way): the public property is what the library has to use.'''
+        base = self._cycle_time
+        if self.slow_factor and self._part is not None and self._part.quality < 0.5:
+            return base * self.slow_factor
+        return base
 
     def get_work_order_capacity(self, tag):
         return self.wo_table.get(tag, (0, 0, 0))[0]
@@ -646,6 +656,8 @@ class LineWorld:
             o = HProcessor(name, up, d.get('cycle', 0), d.get('value', 0),
                            d.get('resources'), wo={t: tuple(v) for t, v in d.get('wo', {}).items()})
             o.hub = self.hub
+            if d.get('slow'):
+                o.slow_factor = d['slow']
         elif k == 'buffer':
             o = Buffer(name, up, d.get('delay', 0), d.get('capacity'), d.get('value', 0))
         elif k == 'gate':
@@ -1092,6 +1104,8 @@ class LineWorld:
             d_.set_upstream(lst)
             lst.clear()
             hub.tlog.append(('upstream', op[1], names))
+        elif k == 'offset':
+            self.dev[op[1]].offset_next_cycle_time(op[2])      # a one-shot offset requested from outside, at any moment
         elif k == 'cycle':
             self.dev[op[1]].cycle_time = op[2]
         elif k == 'reg':
